@@ -181,7 +181,10 @@ fn judge_one(rep: &Reporter, r: &Req, ctl: &Option<Vec<(String, bool, Option<Vec
             if let Some(cs) = &ctl2 {
                 ldap.with_controls(cs.iter().map(raw_ctl).collect::<Vec<_>>());
             }
-            perform(&mut ldap, &r2).await.map_err(|e| e.to_string())
+            match tokio::time::timeout(Duration::from_secs(3600), perform(&mut ldap, &r2)).await {
+                Ok(r) => r.map_err(|e| e.to_string()),
+                Err(_) => Err("no answer: the scripted server could not read the request".to_string()),
+            }
         });
         let leftover = (ldap.controls.is_some(), ldap.timeout.is_some(), ldap.search_opts.is_some());
         let notes = rig.log.lock().unwrap().notes.clone();
@@ -202,10 +205,6 @@ fn judge_one(rep: &Reporter, r: &Req, ctl: &Option<Vec<(String, bool, Option<Vec
         }
         return;
     }
-    if let Err(e) = &res {
-        rep.violation("request:call-failed", &format!("{:?} failed: {}", r, e), replay());
-        return;
-    }
     let t = match ber::decode_all(&wire) {
         Ok(t) => t,
         Err(e) => {
@@ -221,6 +220,10 @@ fn judge_one(rep: &Reporter, r: &Req, ctl: &Option<Vec<(String, bool, Option<Vec
             return;
         }
     };
+    if let Err(e) = &res {
+        rep.violation("request:call-failed", &format!("{:?} failed: {}", r, e), replay());
+        return;
+    }
     let want = model_msg(want_id, r, ctl);
     if got != want {
         let what = if got.id != want.id { "id" } else if got.controls != want.controls { "controls" } else { "op" };
@@ -552,6 +555,35 @@ pub fn run(tier: Tier) -> i32 {
         let c = &cls[x % cls.len()];
         x /= cls.len();
         judge_one(&rep, r, &Some(c.clone()), presets[x], &evals);
+    });
+    // lane a3: length sweep — every content length across the 1/2/3-octet length-form boundaries
+    // at every nesting level (string, operation, message)
+    let mut lens: Vec<usize> = (0..=300).collect();
+    lens.extend(65480..=65560);
+    if tier == Tier::Thorough {
+        lens.extend(300..=1100);
+        lens.extend(16777200..=16777230);
+    }
+    par_for(lens.len() as u64, |i| {
+        let l = lens[i as usize];
+        let s = "z".repeat(l);
+        let k = i as usize;
+        let ctl = if k % 2 == 0 { None } else { Some(cls[k % cls.len()].clone()) };
+        let sweep = vec![
+            Req::Delete(s.clone()),
+            Req::Bind(s.clone(), "pw".into()),
+            Req::Bind("cn=a".into(), s.clone()),
+            Req::Compare("cn=a".into(), "cn".into(), s.clone().into_bytes()),
+            Req::Extended("1.2.3".into(), Some(s.clone().into_bytes())),
+            Req::Search { base: s.clone(), scope: 2, deref: 0, typesonly: false, size: 0, time: 0, filter: 0, attrs: vec![], with_opts: false },
+            Req::Search { base: "".into(), scope: 0, deref: 0, typesonly: false, size: 0, time: 0, filter: 0, attrs: vec![s.clone()], with_opts: false },
+            Req::Add("cn=a".into(), vec![(b"description".to_vec(), vec![s.clone().into_bytes()])]),
+            Req::Modify("cn=a".into(), vec![(2, b"description".to_vec(), vec![s.clone().into_bytes()])]),
+            Req::ModDn("cn=a".into(), "cn=b".into(), true, Some(s.clone())),
+        ];
+        for r in &sweep {
+            judge_one(&rep, r, &ctl, presets[k % presets.len()], &evals);
+        }
     });
     let lane_a = evals.load(Ordering::Relaxed);
     // lane b: histories
